@@ -5,7 +5,7 @@ Field-write discipline (A9) on stream::TransferControlInner plus guard (A6) and 
 """
 from analysis.guards import facts_at, field_writes
 from analysis.sym import Sym, render, const_val, is_call, walk
-from analysis.mir import op_place
+from analysis.mir import op_place, callee_matches
 from rules.common import (site, has_cmp, cmp_facts, option_fact, disjunct_facts, blocks_assigning_variant, texts)
 
 INNER = "stream::TransferControlInner"
@@ -129,7 +129,9 @@ def run(facts, R):
                 "store acked_offset = %s is not guarded by value > acked_offset (a stale ack could move it); guards: %s"
                 % (vtxt, texts(fs)), w["span"], "guarded by acked_offset < value")
         # (b) current file only
-        cur = has_cmp(fs, "Eq", lambda a: _is_f(a, "current_file_index"), lambda x: x[0] in ("arg", "local"))
+        cur = has_cmp(fs, "Eq", lambda a: _is_f(a, "current_file_index"), lambda x: x[0] in ("arg", "local")) or \
+            has_cmp(fs, "Eq", lambda a: _is_f(a, "current_file_index"), lambda x: x[0] == "field" and not any(y[0] == "field" and y[2] in ("current_file_index", "acked_offset", "sent_offset") for y in walk(x))
+                    and any(y[0] == "arg" for y in walk(x)))       # (an element of a caller-supplied batch: `(file_index, offset)` taken from the slice argument)
         R.check(cur, "ack-guards", fn, "acked_offset-current-file",
                 "store acked_offset = %s is not guarded by file_index == current_file_index; guards: %s"
                 % (vtxt, texts(fs)), w["span"], "guarded by file_index == current_file_index")
@@ -264,8 +266,57 @@ def run(facts, R):
       wc = facts.body(gpath)
       sym = Sym(wc)
       oks = blocks_assigning_variant(wc, "std::result::Result", "Ok")
-      R.floor("credit-predicate", len(oks), 1, "Ok exits of " + gpath.rsplit("::", 1)[-1])
+      if gpath == TC + "::wait_for_credit":
+          R.floor("credit-predicate", len(oks), 1, "Ok exits of " + gpath.rsplit("::", 1)[-1])      # (a derived sibling may only delegate)
       for i, j, s in oks:
+          okv = sym.rvalue(s["rv"])
+          if okv[0] == "agg" and okv[3] and const_val(okv[3][0][1]) == 0 and "bool" in wc.local_ty(0):
+              continue        # Ok(false) of a try_ variant: `no credit now`, nothing is granted on this row
+          if okv[0] == "agg" and okv[3] and "bool" in wc.local_ty(0) and const_val(okv[3][0][1]) is None and getattr(wc, "changed", False):
+              # `Ok(in_flight == 0 || fits)`: the verdict is a value.  Every definition that can reach it is `false`, `true` made where the
+              # predicate is known to hold, or the predicate's own comparison
+              from analysis.sym import split_eval as _se
+              pop = s["rv"]["ops"][0]
+              alts_ = _se(sym, i, j, lambda v_: v_.op(pop)) or []
+
+              def _infl(e):
+                  return is_call(e, "saturating_sub") and _is_f(e[2][0], "sent_offset") and _is_f(e[2][1], "acked_offset")
+
+              def _sum(e):
+                  while e[0] == "field" and e[2] == "0" and e[1][0] == "variant" and e[1][2] in ("Some", "Ok"):
+                      e = e[1][1]
+                  if e[0] == "field" and e[2] == "0" and e[1][0] == "bin" and e[1][1] == "AddWithOverflow":
+                      e = ("bin", "Add", e[1][2], e[1][3])
+                  if e[0] == "bin" and e[1] in ("Add", "AddWithOverflow"):
+                      a_, b_ = e[2], e[3]
+                  elif is_call(e, "saturating_add", "checked_add") and len(e[2]) == 2:
+                      a_, b_ = e[2]
+                  else:
+                      return False
+                  return (_infl(a_) and b_[0] == "arg") or (_infl(b_) and a_[0] == "arg")
+              okall = bool(alts_)
+              for ch_, v_ in alts_:
+                  if const_val(v_) == 0:
+                      continue
+                  if v_[0] == "bin" and v_[1] == "Le" and _sum(v_[2]) and _is_f(v_[3], "window_bytes"):
+                      continue
+                  if v_[0] == "bin" and v_[1] == "Ge" and _sum(v_[3]) and _is_f(v_[2], "window_bytes"):
+                      continue
+                  if v_[0] == "bin" and v_[1] == "Eq" and _infl(v_[2]) and const_val(v_[3]) == 0:
+                      continue
+                  if const_val(v_) == 1:
+                      pts_ = [pt_ for pt_ in ch_.values()]
+                      fsx = [f_ for pt_ in pts_ for f_ in facts_at(wc, sym, facts, pt_[0])]
+                      if has_cmp(fsx, "Eq", _infl, lambda x: const_val(x) == 0) or has_cmp(fsx, "Le", _sum, lambda x: _is_f(x, "window_bytes")):
+                          continue
+                  okall = False
+              fs0_ = facts_at(wc, sym, facts, i)
+              R.check(option_fact(fs0_, lambda e: _is_f(e, "cancelled"), "None"), "cancel-sticky", wc.path, "Ok-after-cancel-test",
+                      "%s can report credit without testing `cancelled` first; guards: %s" % (wc.path.rsplit("::", 1)[-1], texts(fs0_)), s.get("span"), "cancelled == None")
+              R.check(okall, "credit-predicate", wc.path, "Ok-guard",
+                      "%s returns Ok(verdict) where the verdict is not, on every definition reaching it, false / true under the credit predicate / the predicate's own "
+                      "comparison: %s" % (wc.path.rsplit("::", 1)[-1], [render(v_)[:80] for _, v_ in alts_]), s.get("span"), "verdict is the credit predicate")
+              continue
           from analysis.guards import refine
           for fs in [alt for fs0 in disjunct_facts(wc, sym, facts, i) for alt in refine(wc, sym, facts, fs0)]:
               not_cancelled = option_fact(fs, lambda e: _is_f(e, "cancelled"), "None")
@@ -301,6 +352,30 @@ def run(facts, R):
     n_wb = 0
     for w in field_writes(facts, INNER, "window_bytes"):
         b_ = w["body"]
+        def _caller_chosen(v_):
+            # an explicit retune by the embedder (`set_window_bytes(new)`): the new window is a parameter of the function, nothing
+            # derived from protocol state.  The window then is what the caller last said; protocol events still never change it
+            return v_[0] == "arg" and b_.local_ty(v_[1]) in ("u64", "usize")
+        if w["kind"] == "mut-borrow" and w.get("dest") and not w["dest"]["p"]:
+            s0_ = Sym(b_)
+            al_ = {w["dest"]["l"]}
+            grew = True
+            while grew:
+                grew = False
+                for _, _, st_ in b_.assigns():
+                    if st_["place"]["p"] or st_["place"]["l"] in al_:
+                        continue
+                    rv_ = st_["rv"]
+                    src_ = rv_.get("ref") if "ref" in rv_ else op_place(rv_["use"]) if "use" in rv_ else None
+                    if src_ is not None and src_["l"] in al_ and [e_ for e_ in src_["p"] if e_ != "deref"] == []:
+                        al_.add(st_["place"]["l"])
+                        grew = True
+            reps = [t_ for _, t_ in b_.calls() if callee_matches(t_["callee"], "std::mem::replace", "core::mem::replace") and len(t_["args"]) == 2
+                    and (op_place(t_["args"][0]) or {}).get("l") in al_]
+            others = [t_ for _, t_ in b_.calls() if any((op_place(a_) or {}).get("l") in al_ for a_ in t_["args"]) and t_ not in reps]
+            if len(reps) == 1 and not others and _caller_chosen(s0_.op(reps[0]["args"][1])):
+                R.ok("credit-predicate", b_.path, "window is fixed", w.get("span"), "retuned only to a caller-supplied value (mem::replace)")
+                continue
         if w["kind"] != "store":
             R.bad("credit-predicate", b_.path, "window is fixed", "window_bytes is borrowed mutably / written through %s" % w["kind"], w.get("span"))
             continue
@@ -313,7 +388,7 @@ def run(facts, R):
         alts_ = (_sr(s_, w["bb"], w["idx"], w["rv"]) if getattr(b_, "changed", False) else None) or [({}, s_.rvalue(w["rv"]))]
         for _, v_ in alts_:
             r_ = render(v_)
-            R.check(_is_f(v_, "window_bytes") and "lock(" in r_, "credit-predicate", b_.path, "window is fixed",
+            R.check((_is_f(v_, "window_bytes") and "lock(" in r_) or _caller_chosen(v_), "credit-predicate", b_.path, "window is fixed",
                     "window_bytes of a live control is overwritten with %s: credit is then granted against another quantity than the configured window" % r_[:120],
                     w.get("span"), "window_bytes := its own previous value")
 
@@ -326,7 +401,9 @@ def run(facts, R):
         R.check(option_fact(fs, lambda e: _is_f(e, "cancelled"), "None"), "cancel-sticky", wr.path, "ResumeReady-after-cancel-test",
                 "wait_for_reconnect can hand out a resume without testing `cancelled` first; guards: %s" % texts(fs), s.get("span"))
     # each wait_timeout is preceded (in the same iteration) by the cancelled test
-    for b in (wc, wr):
+    waiters_ = [facts.body(TC + "::wait_for_credit"), wr] + [b_ for p_, b_ in sorted(facts.bodies.items()) if p_.startswith("stream::") and p_ not in (TC + "::wait_for_credit", wr.path)
+                                                        and b_.call_sites(lambda c: c["path"].endswith("Condvar::wait_timeout") or c["path"].endswith("Condvar::wait"))]
+    for b in waiters_:
         sym = Sym(b)
         ws = b.call_sites(lambda c: c["path"].endswith("Condvar::wait_timeout") or c["path"].endswith("Condvar::wait"))
         R.floor("cancel-sticky", len(ws), 1, "condvar waits in " + b.name)
